@@ -125,6 +125,7 @@ func RunRender(e *expr.Expression, desc string) string {
 // UJResult is json.Unmarshal of arbitrary bytes followed by Validate and every consumer of the decoded expression.
 type UJResult struct {
 	U, V, S, G, J, R, RP string
+	Reuse                string // non-empty: the outcome of decoding the same bytes into a previously used destination, when it differs
 	Expr                 *expr.Expression
 }
 
@@ -138,6 +139,20 @@ func RunUnjson(data string) UJResult {
 		}
 		return "ok:" + CanonExpr(e)
 	})
+	// json.Unmarshal into a destination that was used before must give the same expression as into a fresh one
+	reused := &expr.Expression{}
+	ru := guard(func() string {
+		if err := json.Unmarshal([]byte(`{"left":{"left":"x","operator":"RANGE","right":{"min":1,"max":5,"inclusive":true}},"operator":"AND","right":{"left":"y","operator":"EQUALS","right":"z"}}`), reused); err != nil {
+			return "err"
+		}
+		if err := json.Unmarshal([]byte(data), reused); err != nil {
+			return "err"
+		}
+		return "ok:" + CanonExpr(reused)
+	})
+	if ru != r.U && !(ru == "panic" && r.U == "panic") {
+		r.Reuse = ru
+	}
 	if !strings.HasPrefix(r.U, "ok:") {
 		r.V, r.S, r.G, r.J, r.R, r.RP = "-", "-", "-", "-", "-", "-"
 		return r
